@@ -101,15 +101,59 @@ def generate(seed, tier, index, kf):
         else:
             ops.append({"actor": "agent", "op": "deliver", "mbox": r.choice(["inbox", "work"]), "count": 1, "unseen": True, "shape": r.choice(corpus.SHAPES)})
     mode = "concurrent" if r.random() < 0.5 else "sequential"
+    big = r.random() < 0.12
+    if big:
+        # one push larger than any socket buffer to a slow reader, while other tasks write to the same session:
+        # a session fetches a 400 KiB message again and again, the others NOOP / STORE, an MH agent delivers
+        mode = "concurrent"
+        mb = store["mailboxes"][0]
+        tok += 1
+        mb["msgs"].append({"tok": tok, "key": (mb["msgs"][-1]["key"] + 1) if mb["msgs"] else 1, "flags": [], "date": 1_690_000_000 + tok * 977, "shape": "big"})
+        nbig = len(mb["msgs"])
+        ops = [{"s": s_, "op": "select", "mbox": mb["name"], "examine": False} for s_ in sids]
+        reader = sids[0]
+        for _k in range(r.randint(2, 4)):
+            ops.append({"s": reader, "op": "fetch", "uid": r.random() < 0.5, "set": {"pos": [nbig]}, "items": r.choice(("(BODY.PEEK[])", "(RFC822)", "(UID BODY.PEEK[TEXT])"))})
+        for s_ in sids[1:]:
+            for _k in range(r.randint(6, 14)):
+                x = r.random()
+                if x < 0.6:
+                    ops.append({"s": s_, "op": "noop"})
+                else:
+                    ops.append({"s": s_, "op": "store", "uid": r.random() < 0.5, "set": {"pos": [r.randint(1, max(1, nbig - 1))]}, "how": r.choice("+-"), "flags": [r.choice(KWS)], "silent": False})
+        for _k in range(r.randint(3, 8)):
+            ops.append({"actor": "agent", "op": "deliver", "mbox": mb["name"], "count": 1, "unseen": True, "shape": "plain", "advance": r.random() < 0.5})
+    flood = (not big) and r.random() < 0.08
+    if flood:
+        # an idling session behind a slow link is sent far more than a socket buffer of flag notifications
+        # (another session stores dozens of long keywords on every message) and ends its IDLE meanwhile
+        mode = "concurrent"
+        sids = ["sa", "sb"]
+        mb = store["mailboxes"][0]
+        while len(mb["msgs"]) < 40:
+            tok += 1
+            mb["msgs"].append({"tok": tok, "key": (mb["msgs"][-1]["key"] + 1) if mb["msgs"] else 1, "flags": [], "date": 1_690_000_000 + tok * 977, "shape": "plain"})
+        kws = ["K%02d%s" % (k, "x" * 56) for k in range(r.randint(30, 44))]
+        ops = [{"s": s_, "op": "select", "mbox": mb["name"], "examine": False} for s_ in sids]
+        for _k in range(r.randint(1, 2)):
+            ops.append({"s": "sa", "op": "idle"})
+            ops.append({"s": "sb", "op": "store", "uid": r.random() < 0.5, "set": {"all": True}, "how": "+", "flags": kws, "silent": r.random() < 0.5})
+            ops.append({"s": "sa", "op": "done"})
+            ops.append({"s": "sb", "op": "store", "uid": False, "set": {"all": True}, "how": "-", "flags": kws[: len(kws) // 2], "silent": False})
+            ops.append({"s": "sa", "op": "noop"})
     prog = {
         "format": 1, "seed": seed, "world": "A", "mode": mode, "compare": False, "latency": mailstore.swarm_latency(r, 0.2), "knobs": {}, "buggify": {},
         "store": store, "sessions": [{"id": s, "proto": "imap"} for s in sids], "ops": ops, "props": [PROP],
     }
+    if big or flood:
+        prog["family"] = "big-push" if big else "idle-flood"
     if mode == "concurrent":
         for op in ops:
-            op["when"] = {"delay": r.choice((0.0, 0.0, 0.001, 0.01, 0.1))}
-        if r.random() < 0.15:
+            op["when"] = {"delay": r.choice((0.0, 0.0, 0.001, 0.01, 0.1)) if not (big or flood) else r.choice((0.0, 0.05, 0.2, 0.5, 1.0))}
+        if big or flood or r.random() < 0.15:
             prog["knobs"]["sock_buf"] = r.choice((128, 512, 2048))  # several writers to one slow session
+        if big or flood:
+            prog["latency"]["net"] = r.choice(("bimodal", "slow", "wide"))
     return prog
 
 
